@@ -203,7 +203,7 @@ var c01Tokens = []string{
 	`"a"`, `""`, `"\n"`, `"A"`, "0", "-0", "1", "12", "-1.5", "1e2", "1E+2", "true", "false", "null",
 	" ", "\n", "\r", "\t",
 	"01", "-01", "-01.5", "00", "1.", ".5", "1e", "1e+", "+1", "-",
-	"tru", "nul", "fals", "truex", "nullx",
+	"tru", "nul", "fals", "truex", "nullx", "falsx", "falsex", "trux", "nulx",
 	`"a`, `"\x"`, `"\u12,4"`, `"\u00g0"`, `"\`, `"\ud800"`,
 	"\x00", "\x01", "\x1f", "\"\x00\"", "\"\x1f\"", "\x0b", "x",
 }
